@@ -79,6 +79,15 @@ package nflog
 //@   assigns l.st[*]
 //@   noeffect broadcast
 
+// C10/C04: the store a notifier works on is a copy of the logged receiver data: writing to it never changes the
+// logged entry (the entry changes only through Log).
+//@ func NewStore
+//@   props C10 C04
+//@   ensures [own-copy] result != nil && fresh(result) && result.data != nil && fresh(result.data)
+//@   ensures [same-content] entry != nil && entry.ReceiverData != nil ==> dom(result.data) == dom(entry.ReceiverData) && vals(result.data) == vals(entry.ReceiverData)
+//@   ensures [empty-otherwise] entry == nil || entry.ReceiverData == nil ==> len(result.data) == 0
+//@   assigns nothing
+
 // decodeState reads length-delimited protobuf records; the codec is outside the verified subset. Assumed (codec axiom):
 // on success the result is a fresh map whose entries are well-formed and stored under their own key.
 //@ func decodeState
